@@ -102,7 +102,10 @@ pub fn minimise_case(case: &Case, fails: &mut dyn FnMut(&Case) -> bool, budget: 
             match tweak {
                 0 => c.plan.stall_permille = 0,
                 1 => c.plan.shortread = 0,
-                2 => c.plan.stderr_errno = 0,
+                2 => {
+                    c.plan.stderr_errno = 0;
+                    c.plan.wall_back.clear();
+                }
                 _ => c.plan.dirseed = 0,
             }
             if c != best && fails(&c) {
